@@ -149,10 +149,13 @@ def gen_scenario(rng, tier):
         if rng.random() < 0.5:
             ops.append(["compile"])
     ops.append(["compile"])
-    for _ in range(rng.choice([1, 2, 3])):
-        plus_zero = rng.random() < 0.6
-        fixm = {rng.choice([1, 2, 3, 5]): rng.choice([0, 1, 2, 3])} if rng.random() < 0.3 else {}
-        fixp = {rng.choice([1, 2, 3, 5]): rng.choice([0, 1, 2])} if rng.random() < 0.25 else {}
+    for _ in range(rng.choice([2, 3, 4])):
+        plus_zero = rng.random() < 0.5
+        pick = lambda: rng.choice(sorted(live)) if live else 1
+        fixm = {pick(): rng.choice([0, 1, 2, 3])} if rng.random() < 0.25 else {}
+        fixp = {pick(): rng.choice([0, 0, 1, 2])} if rng.random() < 0.4 else {}
+        if fixp and len(live) > 1 and rng.random() < 0.3:
+            fixp[pick()] = rng.choice([0, 1])
         ops.append(["crev", plus_zero, fixp, fixm, rng.random() < 0.5])
     return {"sig": sig, "prior": prior, "cands": cands, "ops": ops}
 
